@@ -15,10 +15,10 @@ def rules_table():
 
 
 def clean_title(pid, t):
-    t = re.sub(r'^(Seed(ed defect)? [A-J]\b\s*(\(%s\))?\s*[-—:]\s*)' % pid, '', t)
-    t = re.sub(r'^%s\s*(/|seed)\s*(change |seeded defect |seed )?[A-J]\s*[-—:]\s*' % pid, '', t, flags=re.I)
-    t = re.sub(r'^Seed %s-[A-J]:\s*' % pid, '', t)
-    t = re.sub(r'^[A-J]\s*[-—:]\s*', '', t)
+    t = re.sub(r'^(Seed(ed defect)? [A-K]\b\s*(\(%s\))?\s*[-—:]\s*)' % pid, '', t)
+    t = re.sub(r'^%s\s*(/|seed)\s*(change |seeded defect |seed )?[A-K]\s*[-—:]\s*' % pid, '', t, flags=re.I)
+    t = re.sub(r'^Seed %s-[A-K]:\s*' % pid, '', t)
+    t = re.sub(r'^[A-K]\s*[-—:]\s*', '', t)
     return t.strip()
 
 
@@ -30,7 +30,7 @@ def seeds_tables():
     for mp in sorted(glob.glob(V + '/seeded/C*/meta.json')):
         m = json.load(open(mp))
         for s in m['seeds']:
-            rnd = {'A': 1, 'B': 1, 'C': 2, 'D': 2, 'E': 3, 'F': 3, 'G': 4, 'H': 4, 'I': 5, 'J': 5}.get(s['name'], '?')
+            rnd = {'A': 1, 'B': 1, 'C': 2, 'D': 2, 'E': 3, 'F': 3, 'G': 4, 'H': 4, 'I': 5, 'J': 5, 'K': 8}.get(s['name'], '?')
             r = res.get('%s/%s' % (m['property'], s['name']), {})
             by = ', '.join(' '.join(v['rules']) or p for p, v in sorted(r.items()) if isinstance(v, dict) and v.get('rc') == 1)
             if s.get('neutralised_by'):
